@@ -109,10 +109,8 @@ Example window_ex :
 Proof.
   cbv zeta. split; [vm_compute; reflexivity|]. split; [vm_compute; reflexivity|]. split.
   - cbn [hist_ok]. repeat split; try exact Logic.I; try (vm_compute; reflexivity);
-      try (intros [H|[]]; discriminate); try (intros [H|[H|[]]]; discriminate);
-      try (intros k Hp _; vm_compute; intros [H|[]]; discriminate);
-      try (intros k Hp _; vm_compute; discriminate);
-      try (vm_compute; discriminate).
+      try (vm_compute; discriminate);
+      vm_compute; intros [H|[]]; discriminate.
   - vm_compute. repeat split.
 Qed.
 
@@ -124,7 +122,7 @@ Example dead_ex :
   L (w_st (fst (step (after w [h3; h4; h5; h6]) h7))) (KGen 0) = None.
 Proof.
   cbv zeta. split; [vm_compute; left; reflexivity|]. split.
-  - cbn [hist_ok]. repeat split; try exact Logic.I; discriminate.
+  - cbn [hist_ok]. repeat split; try exact Logic.I; unfold h3, h4, h5, h6; discriminate.
   - split; [vm_compute; discriminate | vm_compute; reflexivity].
 Qed.
 
